@@ -111,7 +111,11 @@ func hevcGenSlice(t *rapid.T, spsT *nalgen.HEVCSPSTree, ppsT *nalgen.HEVCPPSTree
 	sps, pps := &spsT.SPS, &ppsT.PPS
 	var tr nalgen.HEVCSliceTree
 	sh, x := &tr.SH, &tr.Extra
-	tr.NalType = rapid.SampledFrom(hevcSliceNalTypes).Draw(t, "nt")
+	if hevcPct(t, 72, "ntvcl") {
+		tr.NalType = hevcSliceNalTypes[hevcUni(t, 10, "nt")] // TRAIL_N .. RASL_R
+	} else {
+		tr.NalType = hevcSliceNalTypes[10+hevcUni(t, 6, "nt")] // BLA_W_LP .. CRA_NUT
+	}
 	if hevcPct(t, 4, "ntrsv") {
 		tr.NalType = byte(rapid.IntRange(22, 23).Draw(t, "ntr")) // RSV_IRAP_VCL22..23: the parser treats them as IRAP
 	}
@@ -174,6 +178,12 @@ func hevcGenSlice(t *rapid.T, spsT *nalgen.HEVCSPSTree, ppsT *nalgen.HEVCPPSTree
 				activeInter = spsT.StRPS[idx].InterRPSPred
 			} else {
 				c, v := hevcGenRPS(t, num, num, vars, maxDpb, "hr")
+				if !c.InterRPSPred && v.NumUsed() == 0 && v.NumDeltaPocs() < maxDpb && hevcPct(t, 60, "wantref") {
+					// make P/B slices possible more often: one more (used) negative picture
+					c.DeltaPocS0Minus1 = append(c.DeltaPocS0Minus1, hevcDrawDeltaMinus1(t, "hrd0"))
+					c.UsedByCurrPicS0 = append(c.UsedByCurrPicS0, true)
+					v = nalgen.HEVCDeriveRPS(&c, nil)
+				}
 				x.StRPS = &c
 				cur = v
 				activeInter = c.InterRPSPred
@@ -225,11 +235,20 @@ func hevcGenSlice(t *rapid.T, spsT *nalgen.HEVCSPSTree, ppsT *nalgen.HEVCPPSTree
 		if currPicRef {
 			nptc++
 		}
-		st := rapid.IntRange(0, 2).Draw(t, "type")
+		st := 2
+		if hevcPct(t, 78, "pb") {
+			st = hevcUni(t, 2, "type")
+		}
 		if irap && !currPicRef {
+			if st != 2 {
+				harness.Rec.Class("hevc-gen-slice-type-forced-I-irap")
+			}
 			st = 2 // IRAP picture without current-picture referencing: slice_type shall be 2
 		}
 		if nptc == 0 {
+			if st != 2 {
+				harness.Rec.Class("hevc-gen-slice-type-forced-I-no-reference")
+			}
 			st = 2
 		}
 		if st != 2 && activeInter && pps.ListsModificationPresentFlag && nptc > 1 && cur.NumUsed() > 0 && hevcAvoid("hevc-strps-interpred-not-derived") {
@@ -420,7 +439,7 @@ func hevcGenSlice(t *rapid.T, spsT *nalgen.HEVCSPSTree, ppsT *nalgen.HEVCPPSTree
 	}
 	if pps.SliceSegmentHeaderExtensionPresentFlag {
 		n := 0
-		switch k := rapid.IntRange(0, 9).Draw(t, "extn?"); {
+		switch k := hevcUni(t, 10, "extn?"); {
 		case k < 4:
 			n = 0
 		case k < 9:
@@ -542,7 +561,7 @@ func hevcCheckSlice(c hevcSliceCase) *harness.Fail {
 	return nil
 }
 
-func hevcSliceClasses(c *hevcSliceCase, d *nalgen.HEVCSliceDerived) []string {
+func hevcSliceClasses(c *hevcSliceCase, nal []byte, d *nalgen.HEVCSliceDerived) []string {
 	tr := &c.Slice
 	sh := &tr.SH
 	spsT, ppsT := c.resolve()
@@ -553,6 +572,11 @@ func hevcSliceClasses(c *hevcSliceCase, d *nalgen.HEVCSliceDerived) []string {
 		}
 	}
 	cl = append(cl, fmt.Sprintf("hevc-slice-nal-%d", tr.NalType))
+	if n := nalgen.HEVCHeaderSizeInNal(nal, d.HeaderBits); true {
+		add(n > d.HeaderBits/8, "hevc-slice-emulation-prevention-inside-header")
+		// (the last header byte holds alignment_bit_equal_to_one, so no escape can directly follow the header)
+	}
+	add(d.NumPicTotalCurr > 1, "hevc-slice-numpictotalcurr-gt1")
 	add(sh.PicParameterSetId != ppsT.PPS.SeqParameterSetID, "hevc-slice-ppsid-differs-from-spsid")
 	for i := range c.SPS {
 		if uint32(c.SPS[i].SPS.SpsID) == sh.PicParameterSetId && &c.SPS[i] != spsT {
@@ -679,12 +703,11 @@ func TestHEVCSlice(t *testing.T) {
 	harness.RunRapid(t, "slice", func(rt *rapid.T) {
 		c := hevcGenSliceCase(rt)
 		spsT, ppsT := c.resolve()
-		_, d := nalgen.HEVCWriteSlice(&c.Slice, spsT, &ppsT.PPS)
-		classes := hevcSliceClasses(&c, &d)
+		nal, d := nalgen.HEVCWriteSlice(&c.Slice, spsT, &ppsT.PPS)
+		classes := hevcSliceClasses(&c, nal, &d)
 		raw, _ := json.Marshal(c)
 		harness.Rec.Case(hevcNontrivial(classes, "hevc-slice-nal-", "hevc-slice-type-2"), raw, classes...)
 		if harness.Rec.WantSample() {
-			nal, _ := nalgen.HEVCWriteSlice(&c.Slice, spsT, &ppsT.PPS)
 			c.Hex = fmt.Sprintf("%x", nal)
 			harness.Rec.Sample(map[string]interface{}{"kind": "hevcslice", "case": c})
 		}
